@@ -91,16 +91,38 @@ func VH_SN_Resolve() {
 	targetData := vx.Bytes("target.data")
 	w := &SenderWorker{plugins: map[string]aio.Plugin{"http": httpP, "poll": pollP},
 		targets: map[string]*receiver.Recv{"default": {Type: "poll", Data: targetData}}, aio: a, metrics: metrics.New(prometheus.NewRegistry())}
+	vhResolveOnce(w, a, httpP, pollP, targetData, "")
+}
+
+// VH_SN_Resolve2: the worker handles one message after another; whatever it keeps between messages, the second
+// message (arbitrary, different address) is resolved by its own stored receiver exactly as a first one would be.
+func VH_SN_Resolve2() {
+	a := &vhAIO{}
+	httpP, pollP := &vhPlugin{typ: "http", accept: true}, &vhPlugin{typ: "poll", accept: true}
+	targetData := vx.Bytes("target.data")
+	w := &SenderWorker{plugins: map[string]aio.Plugin{"http": httpP, "poll": pollP},
+		targets: map[string]*receiver.Recv{"default": {Type: "poll", Data: targetData}}, aio: a, metrics: metrics.New(prometheus.NewRegistry())}
+	vhResolveOnce(w, a, httpP, pollP, targetData, "first.")
+	a.cqes, httpP.msgs, pollP.msgs = nil, nil, nil
+	vx.Reach("second-message")
+	vhResolveOnce(w, a, httpP, pollP, targetData, "second.")
+}
+
+func vhResolveOnce(w *SenderWorker, a *vhAIO, httpP, pollP *vhPlugin, targetData []byte, pfx string) {
 	logical := vx.Choose(2) == 0
-	name := vx.String("logical")
-	phys := &receiver.Recv{Type: vx.String("phys.type"), Data: vx.Bytes("phys.data")}
+	name := vx.String(pfx + "logical")
+	phys := &receiver.Recv{Type: vx.String(pfx + "phys.type"), Data: vx.Bytes(pfx + "phys.data")}
 	var recv []byte
 	if logical {
 		recv, _ = json.Marshal(&name)
 	} else {
-		recv, _ = json.Marshal(phys)
+		var merr error
+		recv, merr = json.Marshal(phys)
+		if merr != nil {
+			return // data that is not a JSON text cannot have been stored as a receiver object
+		}
 	}
-	t := &task.Task{Id: vx.String("task.id"), Counter: vx.Int("task.counter"), Recv: recv, Mesg: &message.Mesg{Type: message.Invoke, Root: "r", Leaf: "r"}}
+	t := &task.Task{Id: vx.String(pfx + "task.id"), Counter: vx.Int(pfx + "task.counter"), Recv: recv, Mesg: &message.Mesg{Type: message.Invoke, Root: "r", Leaf: "r"}}
 	sub := &t_aio.SenderSubmission{Task: t, ClaimHref: "c", CompleteHref: "d", HeartbeatHref: "h"}
 	w.Process(&bus.SQE[t_aio.Submission, t_aio.Completion]{Id: "s", Submission: &t_aio.Submission{Kind: t_aio.Sender, Tags: map[string]string{}, Sender: sub}, Callback: func(*t_aio.Completion, error) {}})
 	failed := len(a.cqes) == 1
